@@ -311,12 +311,12 @@ def shrink(case):
 
 def run(ctx):
     rng = ctx.rng
-    cases = [gen_case(rng, ctx.quick) for _ in range(ctx.n(6, 30))]
+    cases = [gen_case(rng, ctx.quick) for _ in range(ctx.n(3, 30))]
     # every split of keys into constants / point estimates (thorough: all 8×7; quick: a rotating sample)
     subsets = [list(s) for k in range(4) for s in itertools.combinations(KEYS, k)]
     splits = [(cs, ps) for cs in subsets for ps in subsets if len(ps) < 3]
     if ctx.quick:
-        splits = rng.sample(splits, 6)
+        splits = rng.sample(splits, 5)
     for cs, ps in splits:
         for impl in (("cl", "jax") if not ctx.quick else (rng.choice(["cl", "jax"]),)):
             cases.append(gen_case(rng, ctx.quick, impl=impl, consts=cs, pes=ps))
